@@ -38,11 +38,11 @@ type vcReportExp struct {
 }
 
 type vcExp struct {
-	Stored    []string       `json:"stored"`
-	Pending   []string       `json:"pending"`
-	Sends     []vcSendExp    `json:"sends"`
-	Delivered []string       `json:"delivered"`
-	Reports   []vcReportExp  `json:"reports"`
+	Stored    []string        `json:"stored"`
+	Pending   []string        `json:"pending"`
+	Sends     []vcSendExp     `json:"sends"`
+	Delivered []string        `json:"delivered"`
+	Reports   []vcReportExp   `json:"reports"`
 	RawSeq    json.RawMessage `json:"seq"`
 	RawCopies json.RawMessage `json:"copies"`
 	Copies    map[string]int  `json:"-"`
@@ -84,6 +84,7 @@ type vcReplayer struct {
 	// successful transmissions of a bundle to a peer while the bundle has been in the store without interruption
 	okSent map[string]bool
 	late   bool
+	stepT0 time.Time // when the current event was injected
 	// forced interleavings of concurrent failure reports (two store updates of one record)
 	gatedSteps, gateHits int
 }
@@ -188,10 +189,17 @@ func (r *vcReplayer) checkFaithful(sd vcSent, exp *vcSendExp) bool {
 			}
 			oa := ocb.Value.(*bpv7.BundleAgeBlock).Age()
 			ta := cb.Value.(*bpv7.BundleAgeBlock).Age()
+			// the node noted the reception somewhere between the start and the end of the accepting call: the residence
+			// time at the moment of this transmission lies between these two bounds
 			br := r.accT[sd.Name]
-			maxRes := uint64(time.Since(br[0])/time.Millisecond) + 50
-			if ta < oa || ta-oa > maxRes {
-				return bad("bundle-age", fmt.Sprintf("bundle age was %d ms on arrival, %d ms on transmission, but the bundle stayed at most %d ms", oa, ta, maxRes))
+			// (the node reads the clock for the age some store operations before the convergence layer is called, but not
+			// before the event that causes this transmission was injected)
+			minRes, maxRes := int64(r.stepT0.Sub(br[1])/time.Millisecond)-5, int64(sd.At.Sub(br[0])/time.Millisecond)+25
+			if minRes < 0 {
+				minRes = 0
+			}
+			if ta < oa || int64(ta-oa) > maxRes || int64(ta-oa) < minRes {
+				return bad("bundle-age", fmt.Sprintf("bundle age was %d ms on arrival, %d ms on transmission, but the bundle had stayed between %d and %d ms", oa, ta, minRes, maxRes))
 			}
 		case bpv7.ExtBlockTypeBinarySprayBlock:
 			if r.cfg.Algo != "binary_spray" {
@@ -327,6 +335,7 @@ func (r *vcReplayer) run() string {
 		s := r.hist[n]
 		var err error
 		t0 := time.Now()
+		r.stepT0 = t0
 		if !r.late {
 			// a short-lived bundle must not run out before the Advance action says so: under heavy load the behaviour is
 			// abandoned rather than judged (counted; too many of these make the run inconclusive)
@@ -357,13 +366,18 @@ func (r *vcReplayer) run() string {
 		}
 		switch s.Act {
 		case "Submit":
-			r.accT[s.B] = [2]time.Time{t0, t0}
 			err = w.submit(s.B)
+			r.accT[s.B] = [2]time.Time{t0, time.Now()}
 		case "Receive":
-			if _, seen := r.accT[s.B]; !seen {
+			_, seen := r.accT[s.B]
+			known, _, _, _ := w.lookup(s.B)
+			if !seen || !known {
 				r.accT[s.B] = [2]time.Time{t0, t0}
 			}
 			err = w.receive(s.B)
+			if !seen || !known {
+				r.accT[s.B] = [2]time.Time{t0, time.Now()}
+			}
 		case "PeerUp":
 			err = w.peerUp(s.P)
 		case "PeerDown":
@@ -420,8 +434,11 @@ func (r *vcReplayer) run() string {
 		}
 		if err != nil {
 			if strings.HasPrefix(err.Error(), "deadlock") {
-				r.viol(r.cfg.Prop, "core/"+s.Act+"/deadlock", err.Error(), nil)
+				r.viol(r.cfg.Prop, "core/"+s.Act+"/deadlock", err.Error(), vhRec{"goroutines_after_20s": w.stacks})
 				return "viol"
+			}
+			if strings.HasPrefix(err.Error(), "timing") {
+				return "timing"
 			}
 			vhEmit(vhRec{"k": "infra", "v": fmt.Sprintf("%s: %v", s.Act, err)})
 			return "infra"
@@ -659,7 +676,7 @@ func (r *vcReplayer) vector(s vcStep) error {
 		vec[bpv7.MustNewEndpointID(dst)] = val
 	}
 	w.barrierN++
-	b, err := bpv7.Builder().Source(p.eid).Destination(vcNode).CreationTimestampTime(w.base.Add(time.Duration(w.barrierN)*time.Millisecond+2*time.Hour)).
+	b, err := bpv7.Builder().Source(p.eid).Destination(vcNode).CreationTimestampTime(w.base.Add(time.Duration(w.barrierN)*time.Millisecond + 2*time.Hour)).
 		Lifetime("1h").BundleCtrlFlags(bpv7.MustNotFragmented).PayloadBlock([]byte("vector")).Canonical(bpv7.NewProphetBlock(vec)).Build()
 	if err != nil {
 		return err
@@ -673,6 +690,10 @@ func (r *vcReplayer) vector(s vcStep) error {
 func TestVerifCoreReplay(t *testing.T) {
 	log.SetOutput(io.Discard)
 	log.SetLevel(log.PanicLevel)
+	if os.Getenv("VERIF_LOG") != "" { // tools/replay_core.py: show the node's own log while one counterexample is replayed
+		log.SetOutput(os.Stderr)
+		log.SetLevel(log.DebugLevel)
+	}
 	cfgs := map[int]vcCfg{}
 	var items [][]byte
 	if err := vhLines(os.Getenv("VERIF_IN"), func(b []byte) {
